@@ -115,14 +115,16 @@ func (c f9case) body() string {
 		}
 		switch s {
 		case "send-ready(var)", "send-full", "send-nil":
-			fmt.Fprintf(&setup, "\tx%d := %s\n", k, e.vals[k])
+			fmt.Fprintf(&setup, "\tvar x%d %s = %s\n", k, e.typ, e.vals[k])
 			fmt.Fprintf(&sel, "\tcase %s <- x%d:\n\t\tprintln(\"sent\", %d)\n", ch, k, k)
 		case "send-ready(const)":
 			fmt.Fprintf(&sel, "\tcase %s <- %s:\n\t\tprintln(\"sent\", %d)\n", ch, e.vals[k], k)
 		case "recv-ready(v)", "recv-closed(v)", "recv-empty":
-			fmt.Fprintf(&sel, "\tcase v := <-%s:\n\t\tprintln(\"received\", %d, %s)\n", ch, k, pr("v"))
+			v := fmt.Sprintf("v%d", k)
+			fmt.Fprintf(&sel, "\tcase %s := <-%s:\n\t\tprintln(\"received\", %d, %s)\n", v, ch, k, pr(v))
 		case "recv-ready(v,ok)", "recv-closed(v,ok)", "recv-nil":
-			fmt.Fprintf(&sel, "\tcase v, ok := <-%s:\n\t\tprintln(\"received\", %d, %s, ok)\n", ch, k, pr("v"))
+			v := fmt.Sprintf("v%d", k)
+			fmt.Fprintf(&sel, "\tcase %s, ok%d := <-%s:\n\t\tprintln(\"received\", %d, %s, ok%d)\n", v, k, ch, k, pr(v), k)
 		case "recv-ready(bare)":
 			fmt.Fprintf(&sel, "\tcase <-%s:\n\t\tprintln(\"received\", %d)\n", ch, k)
 		}
@@ -192,6 +194,9 @@ var f9Plain = []struct{ name, decls, body string }{
 	{"select-recv-into-map-elem", "", "\tc := make(chan int, 1)\n\tc <- 4\n\tm := map[string]int{}\n\tselect {\n\tcase m[\"k\"] = <-c:\n\t}\n\tprintln(m[\"k\"])\n"},
 	{"sync-by-channel-sum", "", "\tc := make(chan int)\n\tdone := make(chan int)\n\tgo func() {\n\t\ts := 0\n\t\tfor v := range c {\n\t\t\ts += v\n\t\t}\n\t\tdone <- s\n\t}()\n\tfor i := 0; i < 100; i++ {\n\t\tc <- i\n\t}\n\tclose(c)\n\tprintln(<-done)\n"},
 	{"recover-in-goroutine", "", "\tdone := make(chan string)\n\tgo func() {\n\t\tdefer func() {\n\t\t\tr := recover()\n\t\t\tdone <- r.(string)\n\t\t}()\n\t\tpanic(\"in goroutine\")\n\t}()\n\tprintln(<-done)\n"},
+	{"select-same-var-name-in-two-clauses", "", "\ta := make(chan int, 1)\n\tb := make(chan int, 1)\n\ta <- 3\n\tselect {\n\tcase v := <-a:\n\t\tprintln(\"a\", v)\n\tcase v := <-b:\n\t\tprintln(\"b\", v)\n\t}\n"},
+	{"select-same-var-name-different-types", "", "\ta := make(chan int, 1)\n\tb := make(chan string, 1)\n\tb <- \"s\"\n\tselect {\n\tcase v := <-a:\n\t\tprintln(\"a\", v)\n\tcase v, ok := <-b:\n\t\tprintln(\"b\", v, ok)\n\t}\n"},
+	{"select-shadowing-outer-var", "", "\tv := 100\n\ta := make(chan int, 1)\n\ta <- 3\n\tselect {\n\tcase v := <-a:\n\t\tprintln(\"a\", v)\n\t}\n\tprintln(v)\n"},
 	{"send-two-values-two-chans", "", "\ta := make(chan int, 1)\n\tb := make(chan int, 1)\n\tx, y := 1, 2\n\ta <- x\n\tb <- y\n\tprintln(<-a, <-b)\n"},
 }
 
